@@ -269,6 +269,9 @@ func (r *SparseReal64Matrix) Jacobian(f func(ConstVector) ConstVector, x_ MagicV
      n = y.Dim()
      m = x.Dim()
     *r = *NullSparseReal64Matrix(n, m)
+  } else {
+    // the matrix may hold the entries of an earlier result
+    r.Reset()
   }
   // copy derivatives
   for i := 0; i < n; i++ {
@@ -288,6 +291,9 @@ func (r *SparseReal64Matrix) Hessian(f func(ConstVector) ConstScalar, x_ MagicVe
      n = x_.Dim()
      m = x_.Dim()
     *r = *NullSparseReal64Matrix(n, m)
+  } else {
+    // the matrix may hold the entries of an earlier result
+    r.Reset()
   }
   x := x_.CloneMagicVector()
   x.Variables(2)
